@@ -80,6 +80,7 @@ func isCallbackField(t types.Type) bool {
 }
 
 func runC22(c *Ctx) {
+	c22LenUnit(c)
 	c.Rule("C22.IDIOM", "PAIR: in the cluster FSM Restore/rebuild functions, the two halves of a map idiom name the same map and key: a get-or-create stores the new set under the key it looked up, and a delete-when-empty removes the entry whose own set it found empty")
 	{
 		n := 0
